@@ -61,6 +61,7 @@ def tweak(rng, u):
     rng.shuffle(cfgs)
     u['configs'] = cfgs[:9] + [{}, {'lang': 'en'}, {'lexicon': 'sf:1 sf:2', 'expand': ''},
                                {'lexicon': 'sf:*', 'expand': '', 'normalizer': rng.random() < 0.5, 'lemmatizer': LEM},
+                               {'lexicon': 'sf:1', 'expand': ''},      # base only: the extension's forms are the witness of known finding F14
                                {'lexicon': 'sf:1 sfx:1', 'expand': '', 'search_all_forms': False},
                                {'lexicon': 'sf:1 sfx:1', 'expand': '', 'search_all_forms': True, 'normalizer': rng.random() < 0.5}]
 
